@@ -88,7 +88,34 @@ def h_wire_big(ctx, kind, n, opts):
     ctx.observe('len', len(boc))
 
 
+def h_wire_two_bags(ctx, opts1, opts2, order):
+    """the same cell objects take part in several bags (a shared sub-DAG at different positions): every emitted bag satisfies
+    the strict decoder and decodes to its own DAG, whatever was serialised before"""
+    from harness.C03 import h_two_bags
+    todo, crc = h_two_bags(ctx, opts1, opts2, order, strict=True)
+    for root, sc, o in todo:
+        boc = root.to_boc(**o)
+        try:
+            h = bocspec.decode(boc, crc)
+        except bocspec.BocSpecError as ex:
+            ctx.require(False, 'several bags over shared cell objects: strict decoder accepts the emitted bytes [' + str(ex)[:50] + ']')
+            continue
+        ctx.require(True, 'several bags over shared cell objects: strict decoder accepts the emitted bytes')
+
+        def same(i, s):
+            c = h['cells'][i]
+            ok = And(c['bits'] == s.bits, len(c['refs']) == len(s.refs))
+            if len(c['refs']) == len(s.refs):
+                for j, t in zip(c['refs'], s.refs):
+                    ok = And(ok, same(j, t))
+            return ok
+        ctx.require(same(h['roots'][0], sc), 'several bags over shared cell objects: decodes to its own DAG')
+
+
 def instances(tier, seed):
+    for order in ('ab', 'ba', 'xab'):
+        for o1, o2 in ((OPTIONS[0], OPTIONS[0]), (OPTIONS[0], OPTIONS[5]), (OPTIONS[3], OPTIONS[1])):
+            yield 'h_wire_two_bags', dict(opts1=o1, opts2=o2, order=order)
     dags = small_dags()
     fam = family_dags()
     pick = dags if tier == 'thorough' else [d for i, d in enumerate(dags) if len(d) <= 2 or i % 6 == (seed + 1) % 6]
